@@ -116,7 +116,7 @@ func runC13(r *Rng, n int, tier string) {
 			enums, tables := p.SchemaDecls()
 			for k := 0; k < 3 && len(tables)+len(enums) > 1; k++ {
 				files := p.Files()
-				files["schema.sql"] = strings.Join(append(permuted(r, enums), permuted(r, tables)...), "\n") + "\n"
+				files["schema.sql"] = strings.Join(append(append(permuted(r, enums), permuted(r, tables)...), p.Suffix...), "\n") + "\n"
 				if got := generate(files); !same(got) {
 					fail("reordering independent table / enum declarations changes the output", files, got)
 				}
